@@ -3,13 +3,18 @@
 // extract: go/ast — the `formatSpecifiers` map of sql/planbuilder/dateparse (specifier ↦ parser function), its
 //
 //	dateSpecifiers/timeSpecifiers lists, the AM/PM-with-24h guard, DATE_FORMAT's `dateFormatSpecifierToFunc` map,
-//	the `switch unit` of TimestampDiff.Eval; run time — the sql.*Per* constants of the freshly compiled code.
+//	the `switch unit` of TimestampDiff.Eval; run time — the sql.*Per* constants of the freshly compiled code and
+//	the text types.Date/Datetime(p).SQL writes for a table of sample values (year classes 0, 1..999, 1000..9999),
+//	types.ZeroTime and types.ValidateTime probed around both ends of its range.
 //
 // run: unit level on the real code — time.Date (calendar tie), dateparse.ParseDateWithFormat, formatDate,
 //
 //	TimeDelta.Add/Sub, DateDiff.Eval, TimestampDiff.Eval — compared with the Lean Impl model; model-free
 //	oracles (round trip, invalid ⇒ rejected, day/second/month counts by independent Go arithmetic); an SQL-level
-//	stream that ties the SQL functions to the unit-level functions on the real engine.
+//	stream (sqlx) that ties the SQL functions to the unit-level functions on the real engine; where the SQL result
+//	is a temporal value (DATE_ADD/DATE_SUB, STR_TO_DATE, CAST … AS DATE/DATETIME(p)) the observation is the text the
+//	client is sent, compared with the Lean model of datetimeType.SQL (Impl) and the canonical text (Spec), and the
+//	text is read back through the engine's own conversion (CAST of the text returns the same text).
 package main
 
 import (
@@ -120,7 +125,7 @@ func extract(a hx.ExtractArgs) error {
 	if err != nil {
 		return err
 	}
-	lf := hx.NewLeanFile("Gms.Generated.C31", dp.Path, df.Path, tm.Path, "sql/time.go (run time)")
+	lf := hx.NewLeanFile("Gms.Generated.C31", dp.Path, df.Path, tm.Path, "sql/time.go (run time)", "sql/types/datetime.go + sql/types/time.go (run time: datetimeType.SQL, ZeroTime, ValidateTime)")
 
 	tbl, _, err := specMap(dp, "formatSpecifiers", true)
 	if err != nil {
@@ -229,7 +234,91 @@ func extract(a hx.ExtractArgs) error {
 	lf.DefInt("microsecondsPerWeek", sql.MicrosecondsPerWeek)
 	lf.DefInt("monthsPerQuarter", sql.MonthsPerQuarter)
 	lf.DefInt("monthsPerYear", sql.MonthsPerYear)
+
+	// run time: the text datetimeType.SQL (appendDateFormat / appendDatetimeFormat) writes, as compiled
+	var rows []string
+	ectx := sql.NewEmptyContext()
+	for _, k := range sqlKinds {
+		for _, f := range sqlTextSampleFields {
+			g := k.trunc(f)
+			var txt string
+			var err error
+			if p := hx.Safe(func() {
+				v, e := k.typ.SQL(ectx, nil, g.time())
+				txt, err = v.ToString(), e
+			}); p != "" || err != nil {
+				return fmt.Errorf("types %s .SQL(%v): %v %s", k.name, g, err, p)
+			}
+			rows = append(rows, fmt.Sprintf("(%s, [%d, %d, %d, %d, %d, %d, %d], %s)", hx.LeanString(k.name), g.y, g.mo, g.d, g.h, g.mi, g.s, g.ns, hx.LeanString(txt)))
+		}
+	}
+	// run time: types.ZeroTime and the range types.ValidateTime accepts (probed around both ends)
+	zf := fieldsOf(types.ZeroTime)
+	lf.Comment("types.ZeroTime as calendar fields (Go renders MySQL's 0000-00-00 as 30 November of the year -1)")
+	lf.Raw(fmt.Sprintf("def zeroTimeFields : List Int := [%d, %d, %d, %d, %d, %d, %d]\n", zf.y, zf.mo, zf.d, zf.h, zf.mi, zf.s, zf.ns))
+	var probes []string
+	for _, f := range []fields{
+		{-2, 12, 31, 23, 59, 59, 999999000}, {-1, 1, 1, 0, 0, 0, 0}, {-1, 11, 29, 23, 59, 59, 999999000}, {-1, 11, 30, 0, 0, 0, 0},
+		{-1, 11, 30, 0, 0, 0, 1000}, {-1, 12, 31, 23, 59, 59, 999999000}, {0, 1, 1, 0, 0, 0, 0}, {1, 1, 1, 0, 0, 0, 0}, {999, 12, 31, 0, 0, 0, 0},
+		{1000, 1, 1, 0, 0, 0, 0}, {9999, 12, 31, 23, 59, 59, 999999000}, {9999, 12, 31, 23, 59, 59, 999999999}, {10000, 1, 1, 0, 0, 0, 0},
+	} {
+		probes = append(probes, fmt.Sprintf("([%d, %d, %d, %d, %d, %d, %d], %v)", f.y, f.mo, f.d, f.h, f.mi, f.s, f.ns, types.ValidateTime(f.time()) != nil))
+	}
+	lf.Comment("types.ValidateTime(time.Date(fields)) != nil")
+	lf.Raw("def validateTimeProbes : List (List Int × Bool) := [" + strings.Join(probes, ", ") + "]\n")
+	lf.Comment("types.<kind>.SQL(time.Date(fields)): kind, fields y mo d h mi s ns, text")
+	lf.Raw("def sqlTextSamples : List (String × List Int × String) := [\n  " + strings.Join(rows, ",\n  ") + "]\n")
 	return lf.Write(a.Out)
+}
+
+// the temporal result types of the sqlx stream (Lean: Cal.SqlKind)
+type sqlKind struct {
+	name string
+	typ  sql.Type
+	cast string // SQL type name for CAST
+	prec int    // fraction digits; -1: DATE
+}
+
+var sqlKinds = []sqlKind{
+	{"date", types.Date, "DATE", -1},
+	{"datetime", types.Datetime, "DATETIME", 0},
+	{"datetime3", types.Datetime3, "DATETIME(3)", 3},
+	{"datetime6", types.DatetimeMaxPrecision, "DATETIME(6)", 6},
+}
+
+// trunc drops what the kind does not carry (so that no rounding is involved: that is C26's subject)
+func (k sqlKind) trunc(f fields) fields {
+	switch k.prec {
+	case -1:
+		f.h, f.mi, f.s, f.ns = 0, 0, 0, 0
+	case 0:
+		f.ns = 0
+	case 3:
+		f.ns = f.ns / 1000000 * 1000000
+	default:
+		f.ns = f.ns / 1000 * 1000
+	}
+	return f
+}
+
+// literal is the canonical (four-digit year) text of the value: the Spec text and the literal used in queries
+func (k sqlKind) literal(f fields) string {
+	t := k.trunc(f).time()
+	switch k.prec {
+	case -1:
+		return t.Format("2006-01-02")
+	case 0:
+		return t.Format("2006-01-02 15:04:05")
+	case 3:
+		return t.Format("2006-01-02 15:04:05.000")
+	}
+	return t.Format("2006-01-02 15:04:05.000000")
+}
+
+var sqlTextSampleFields = []fields{
+	{0, 5, 7, 11, 28, 39, 0}, {1, 1, 1, 0, 0, 0, 0}, {9, 12, 31, 23, 59, 59, 999999000}, {10, 10, 10, 10, 10, 10, 100000000},
+	{99, 2, 28, 9, 5, 3, 7000000}, {100, 3, 1, 1, 2, 3, 45000}, {959, 5, 7, 11, 28, 39, 0}, {999, 12, 31, 23, 59, 59, 999999000},
+	{1000, 1, 1, 0, 0, 0, 0}, {2024, 2, 29, 9, 5, 3, 7000000}, {9999, 12, 31, 23, 59, 59, 123456000},
 }
 
 // ---------------------------------------------------------------------------------------------
@@ -442,7 +531,9 @@ func run(a hx.RunArgs) error {
 	defer out.Close()
 	out.Rule = "streams: date (time.Date on in- and out-of-range fields), parse (dateparse on texts built from field values, valid and invalid, " +
 		"and on mutated formatter output), fmt/rt (formatDate and parse∘format on valid instants of year 0..9999), delta/addsub (TimeDelta.Add/Sub), " +
-		"datediff/tsdiff (DateDiff/TimestampDiff.Eval), sqlx (SQL function vs. unit function on the real engine); a case is non-trivial when the " +
+		"datediff/tsdiff (DateDiff/TimestampDiff.Eval), sqlx (SQL function vs. unit function on the real engine; for DATE_ADD/DATE_SUB, STR_TO_DATE and " +
+		"CAST AS DATE/DATETIME(p) the observation is the text sent for the temporal result, years 1..9999 incl. the classes below 1000, compared with " +
+		"the model of datetimeType.SQL and read back through CAST); a case is non-trivial when the " +
 		"result is a value (not an error/NULL) and, for parse, at least one numeric field was read; for delta when a month/year part or a day carry is involved"
 	r := hx.NewRand(mixSeed(a.Seed))
 	ctx := sql.NewEmptyContext()
@@ -621,6 +712,153 @@ func run(a hx.RunArgs) error {
 		}
 	}
 
+	// ----- sqlx: SQL functions vs. unit functions on the real engine
+	e := eng.New("d")
+	sctx := e.Ctx()
+	one := func(q string) (string, bool) { // text of the single cell; ok=false on error/crash
+		res := e.Query(eng.SameSession(sctx), q)
+		if res.Class() != "ok" || len(res.Rows) != 1 || len(res.Rows[0]) != 1 {
+			return res.Class(), false
+		}
+		return res.Rows[0][0], true
+	}
+	sqlx := func(kind, payload, q, want string) {
+		got, ok := one(q)
+		obs := "consistent"
+		if !ok || got != want {
+			obs = fmt.Sprintf("inconsistent: %s returned %q, the unit-level function gives %q", q, got, want)
+		}
+		out.Case(hx.List("sqlx", kind, payload), obs, want != "NULL")
+		out.Stat("sqlx:" + kind)
+	}
+	dtLit := func(t time.Time) string { return t.Format("2006-01-02 15:04:05.000000") }
+	// Temporal results. The observation is the text the client is sent (or NULL / the error class); the Lean driver
+	// answers with the model of datetimeType.SQL (Impl) and the canonical text (Spec) of the value the unit-level
+	// model computes. `val` (when `isVal`) is that value computed by the REAL unit-level function, `k` its SQL type.
+	// Two model-free oracles on the real code:
+	//   1. SQL level = unit level: the text is the canonical text of `val` (NULL outside the years 0..9999);
+	//   2. the text reads back: CAST('<text>' AS <type>) returns the same text (format ↔ parse of a computed value).
+	// A failure is attributed to the listed region datetime_text_year_below_1000 only when the case is in that class
+	// (the value's year is 1..999) and, for oracle 1, the text is exactly the canonical text with the year's leading
+	// zeros dropped; anything else is reported as a violation (untagged, or tagged datetime_text_unexpected, see below).
+	// A DATE_ADD/DATE_SUB result is range-checked by types.ValidateTime against [ZeroTime, 9999-12-31 23:59:59.999999];
+	// ZeroTime is −0001-11-30, so a result in the 32 days before the year 0 comes back as a date of the year −1 (or as the
+	// zero date) where NULL is expected: listed region dateadd_result_before_year_zero, decided on the unit-level result
+	// and attributed only when the text is exactly that value's text (`rangeChecked` is set for the dateadd kind only).
+	const regionYear = "datetime_text_year_below_1000"
+	const regionWindow = "dateadd_result_before_year_zero"
+	sqlxText := func(kind, payload, q string, k sqlKind, val time.Time, isVal bool, rangeChecked bool) {
+		want := "NULL"
+		inRange := isVal && val.Year() >= 0 && val.Year() <= 9999
+		if inRange {
+			want = k.literal(fieldsOf(val))
+		}
+		inRegion := inRange && val.Year() >= 1 && val.Year() <= 999
+		inWindow := rangeChecked && isVal && val.Year() < 0 && !val.Before(types.ZeroTime)
+		res := e.Query(eng.SameSession(sctx), q)
+		obs, got, ok := res.Class(), "", false
+		if obs == "ok" && len(res.Rows) == 1 && len(res.Rows[0]) == 1 {
+			got, ok = res.Rows[0][0], true
+			obs = got
+		}
+		id := out.Case(hx.List("sqlx", kind, payload), obs, want != "NULL")
+		out.Stat("sqlx:" + kind)
+		if inRegion {
+			out.Stat("sqlx:" + kind + ":year-1..999")
+		}
+		if inWindow {
+			out.Stat("sqlx:" + kind + ":before-year-0")
+		}
+		if !ok || got != want {
+			// `-` would inherit the region the model assigns to this case (check.py), so a deviation inside a listed
+			// class that is NOT the listed one carries a tag of its own, which is deliberately not listed
+			tag := "-"
+			switch {
+			case inRegion:
+				tag = "datetime_text_unexpected"
+				if ok && got == strings.TrimLeft(want, "0") {
+					tag = regionYear
+				}
+			case inWindow:
+				tag = "dateadd_result_unexpected"
+				f := fieldsOf(val)
+				defective := fmt.Sprintf("%d-%02d-%02d %02d:%02d:%02d.%06d", f.y, f.mo, f.d, f.h, f.mi, f.s, f.ns/1000)
+				if val.Equal(types.ZeroTime) {
+					defective = "0000-00-00 00:00:00.000000"
+				}
+				if ok && got == defective {
+					tag = regionWindow
+				}
+			}
+			out.OracleFail(id, tag, fmt.Sprintf("%s returned %q, the unit-level function gives %q", q, obs, want))
+		}
+		if ok && got != "NULL" {
+			q2 := fmt.Sprintf("SELECT CAST('%s' AS %s)", got, k.cast)
+			back, ok2 := one(q2)
+			out.Stat("sqlx:read-back")
+			if !ok2 || back != got {
+				tag := "-"
+				if inRegion {
+					tag = regionYear
+				} else if inWindow {
+					tag = regionWindow
+				}
+				out.OracleFail(id, tag, fmt.Sprintf("%s returned %q: the text %q sent for %s does not read back", q2, back, got, q))
+			}
+		}
+	}
+	kDT, kDT6 := sqlKinds[1], sqlKinds[3]
+	type unitDelta struct {
+		unit string
+		mk   func(n int64) expression.TimeDelta
+	}
+	unitDeltas := []unitDelta{
+		{"YEAR", func(n int64) expression.TimeDelta { return expression.TimeDelta{Years: n} }},
+		{"QUARTER", func(n int64) expression.TimeDelta { return expression.TimeDelta{Months: 3 * n} }},
+		{"MONTH", func(n int64) expression.TimeDelta { return expression.TimeDelta{Months: n} }},
+		{"WEEK", func(n int64) expression.TimeDelta { return expression.TimeDelta{Days: 7 * n} }},
+		{"DAY", func(n int64) expression.TimeDelta { return expression.TimeDelta{Days: n} }},
+		{"HOUR", func(n int64) expression.TimeDelta { return expression.TimeDelta{Hours: n} }},
+		{"MINUTE", func(n int64) expression.TimeDelta { return expression.TimeDelta{Minutes: n} }},
+		{"SECOND", func(n int64) expression.TimeDelta { return expression.TimeDelta{Seconds: n} }},
+		{"MICROSECOND", func(n int64) expression.TimeDelta { return expression.TimeDelta{Microseconds: n} }},
+	}
+	// DATE_ADD / DATE_SUB of a DATETIME(6) value with one unit
+	dateaddCase := func(fn string, ud unitDelta, n int64, f fields) {
+		f = kDT6.trunc(f)
+		t := f.time()
+		td := ud.mk(n)
+		var res time.Time
+		if fn == "DATE_ADD" {
+			res = td.Add(t)
+		} else {
+			res = td.Sub(t)
+		}
+		sqlxText("dateadd", hx.List(fn, ud.unit, fmt.Sprint(n), f.sexp()),
+			fmt.Sprintf("SELECT %s(CAST('%s' AS DATETIME(6)), INTERVAL %d %s)", fn, dtLit(t), n, ud.unit), kDT6, res, true, true)
+	}
+	unitNamed := func(u string) unitDelta {
+		for _, ud := range unitDeltas {
+			if ud.unit == u {
+				return ud
+			}
+		}
+		panic("unit " + u)
+	}
+	// the text of a value itself: CAST of the canonical literal to the type
+	dttextCase := func(k sqlKind, f fields) {
+		f = k.trunc(f)
+		sqlxText("dttext", hx.List(k.name, f.sexp()), fmt.Sprintf("SELECT CAST('%s' AS %s)", k.literal(f), k.cast), k, f.time(), true, false)
+	}
+	// STR_TO_DATE with a full datetime format: the SQL value is the unit-level instant (NULL on error)
+	strtodateCase := func(text, pf string) {
+		_, pt, isTime := parseObs(text, pf)
+		if isTime && (pt.Year() < 1 || pt.Year() > 9999) {
+			return
+		}
+		sqlxText("strtodate", hx.List(hx.HexS(text), hx.HexS(pf)), fmt.Sprintf("SELECT STR_TO_DATE('%s','%s')", text, pf), kDT, pt, isTime, false)
+	}
+
 	// ================= corpus: witnesses first =================
 	parseCase("2023-02-29", "%Y-%m-%d", &fields{y: 2023, mo: 2, d: 29}, "corpus")
 	parseCase("2024-02-30", "%Y-%m-%d", &fields{y: 2024, mo: 2, d: 30}, "corpus")
@@ -654,6 +892,42 @@ func run(a hx.RunArgs) error {
 	deltaCase(expression.TimeDelta{Years: 1, Months: 1}, -1, fields{y: 2024, mo: 2, d: 29})
 	addsubCase(expression.TimeDelta{Years: 1, Months: 1}, fields{y: 2023, mo: 1, d: 29})
 	addsubCase(expression.TimeDelta{Months: 1}, fields{y: 2024, mo: 1, d: 31})
+	// the text of temporal values, year classes 0 / 1..999 / 1000..9999 (region datetime_text_year_below_1000):
+	// the alarms of the seed sweep (arithmetic across the year-1000 boundary) …
+	dateaddCase("DATE_SUB", unitNamed("YEAR"), 41, fields{1000, 5, 7, 11, 28, 39, 0})
+	dateaddCase("DATE_ADD", unitNamed("QUARTER"), -12, fields{1000, 10, 18, 0, 59, 1, 0})
+	dateaddCase("DATE_SUB", unitNamed("WEEK"), 38, fields{1000, 9, 21, 23, 9, 11, 0})
+	dateaddCase("DATE_ADD", unitNamed("QUARTER"), -29, fields{1000, 6, 27, 23, 30, 0, 911437000})
+	// … the boundary itself, from both sides, and the class reached directly
+	dateaddCase("DATE_SUB", unitNamed("MICROSECOND"), 1, fields{1000, 1, 1, 0, 0, 0, 0})
+	dateaddCase("DATE_ADD", unitNamed("MICROSECOND"), 1, fields{999, 12, 31, 23, 59, 59, 999999000})
+	dateaddCase("DATE_ADD", unitNamed("YEAR"), 41, fields{959, 5, 7, 11, 28, 39, 0})
+	dateaddCase("DATE_ADD", unitNamed("DAY"), 1, fields{99, 2, 28, 0, 0, 0, 0})
+	dateaddCase("DATE_SUB", unitNamed("YEAR"), 1000, fields{1000, 5, 7, 11, 28, 39, 0})
+	dateaddCase("DATE_SUB", unitNamed("YEAR"), 1001, fields{1000, 5, 7, 11, 28, 39, 0})
+	dateaddCase("DATE_ADD", unitNamed("MONTH"), 1, fields{9999, 12, 1, 0, 0, 0, 0})
+	// the lower end of the result range (region dateadd_result_before_year_zero): ZeroTime is −0001-11-30
+	dateaddCase("DATE_ADD", unitNamed("YEAR"), -10, fields{9, 12, 29, 17, 55, 7, 0})
+	dateaddCase("DATE_ADD", unitNamed("YEAR"), -11, fields{9, 12, 29, 17, 55, 7, 0})
+	dateaddCase("DATE_SUB", unitNamed("MICROSECOND"), 1, fields{0, 1, 1, 0, 0, 0, 0})
+	dateaddCase("DATE_SUB", unitNamed("DAY"), 32, fields{0, 1, 1, 0, 0, 0, 0})
+	dateaddCase("DATE_SUB", unitNamed("DAY"), 33, fields{0, 1, 1, 0, 0, 0, 0})
+	dateaddCase("DATE_SUB", unitNamed("SECOND"), 2764801, fields{0, 1, 1, 0, 0, 0, 0})
+	dateaddCase("DATE_SUB", unitNamed("YEAR"), 1, fields{0, 3, 1, 0, 0, 0, 0})
+	dateaddCase("DATE_SUB", unitNamed("YEAR"), 1, fields{0, 12, 31, 0, 0, 0, 0})
+	dateaddCase("DATE_SUB", unitNamed("MONTH"), 1, fields{0, 1, 1, 0, 0, 0, 0})
+	dateaddCase("DATE_ADD", unitNamed("SECOND"), 1, fields{9999, 12, 31, 23, 59, 59, 0})
+	dateaddCase("DATE_ADD", unitNamed("MICROSECOND"), 1, fields{9999, 12, 31, 23, 59, 59, 999998000})
+	dateaddCase("DATE_ADD", unitNamed("YEAR"), 1, fields{2024, 2, 29, 12, 0, 0, 500000000})
+	for _, k := range sqlKinds {
+		for _, f := range sqlTextSampleFields {
+			dttextCase(k, f)
+		}
+	}
+	strtodateCase("0959-05-07 11:28:39", "%Y-%m-%d %H:%i:%s")
+	strtodateCase("07/05/0099 11.28.39", "%d/%m/%Y %H.%i.%s")
+	strtodateCase("10000101 00:00:00", "%Y%m%d %T")
+	strtodateCase("2023-02-29 01:02:03", "%Y-%m-%d %H:%i:%s")
 
 	// ================= date: the calendar tie =================
 	for i := 0; i < 8000*scale; i++ {
@@ -918,50 +1192,22 @@ func run(a hx.RunArgs) error {
 	}
 
 	// ================= sqlx: SQL functions vs. unit functions on the real engine =================
-	e := eng.New("d")
-	sctx := e.Ctx()
-	one := func(q string) (string, bool) { // text of the single cell; ok=false on error/crash
-		res := e.Query(eng.SameSession(sctx), q)
-		if res.Class() != "ok" || len(res.Rows) != 1 || len(res.Rows[0]) != 1 {
-			return res.Class(), false
-		}
-		return res.Rows[0][0], true
-	}
-	sqlx := func(kind, payload, q, want string) {
-		got, ok := one(q)
-		obs := "consistent"
-		if !ok || got != want {
-			obs = fmt.Sprintf("inconsistent: %s returned %q, the unit-level function gives %q", q, got, want)
-		}
-		out.Case(hx.List("sqlx", kind, payload), obs, want != "NULL")
-		out.Stat("sqlx:" + kind)
-	}
-	dtLit := func(t time.Time) string { return t.Format("2006-01-02 15:04:05.000000") }
-	renderDT := func(t time.Time) string {
-		if t.Year() < 0 || t.Year() > 9999 {
-			return "NULL"
-		}
-		if t.Nanosecond() == 0 {
-			return t.Format("2006-01-02 15:04:05")
-		}
-		return t.Format("2006-01-02 15:04:05.000000")
-	}
-	renderDT6 := func(t time.Time) string {
-		if t.Year() < 0 || t.Year() > 9999 {
-			return "NULL"
-		}
-		return t.Format("2006-01-02 15:04:05.000000")
-	}
 	nsql := 300 * scale
 	if nsql > 4000 {
 		nsql = 4000
 	}
 	for i := 0; i < nsql; i++ {
 		f1, f2 := randValid(r, true), randValid(r, true)
+		if r.Chance(1, 6) { // the year classes around the four-digit boundary, directly
+			f1.y = hx.Pick(r, []int{1, 9, 10, 99, 100, 999, 1000, 1001, r.Range(1, 999), r.Range(1, 999), r.Range(950, 1050)})
+			if f1.d > daysIn(f1.y, f1.mo) {
+				f1.d = daysIn(f1.y, f1.mo)
+			}
+		}
 		if r.Chance(1, 2) {
 			f2 = fieldsOf(f1.time().AddDate(0, r.Range(-14, 14), r.Range(-40, 40)).Add(time.Duration(r.Range(-90000, 90000)) * time.Second))
 		}
-		if f1.y < 1000 || f2.y < 1000 || f2.y > 9999 {
+		if f1.y < 1 || f2.y < 1 || f2.y > 9999 {
 			continue
 		}
 		t1, t2 := f1.time(), f2.time()
@@ -971,29 +1217,28 @@ func run(a hx.RunArgs) error {
 		sqlx("tsdiff", hx.List(u, f1.sexp(), f2.sexp()), fmt.Sprintf("SELECT TIMESTAMPDIFF(%s,'%s','%s')", strings.ToUpper(u), dtLit(t1), dtLit(t2)),
 			evalInt(function.NewTimestampDiff(ctx, expression.NewLiteral(u, types.LongText), lit(t1), lit(t2))))
 		// DATE_ADD / DATE_SUB with one unit
-		type unitDelta struct {
-			unit string
-			mk   func(n int64) expression.TimeDelta
+		{
+			ud := hx.Pick(r, unitDeltas)
+			n := int64(r.Range(-50, 50))
+			fn := "DATE_ADD"
+			if r.Bool() {
+				fn = "DATE_SUB"
+			}
+			dateaddCase(fn, ud, n, f1)
 		}
-		ud := hx.Pick(r, []unitDelta{
-			{"YEAR", func(n int64) expression.TimeDelta { return expression.TimeDelta{Years: n} }},
-			{"QUARTER", func(n int64) expression.TimeDelta { return expression.TimeDelta{Months: 3 * n} }},
-			{"MONTH", func(n int64) expression.TimeDelta { return expression.TimeDelta{Months: n} }},
-			{"WEEK", func(n int64) expression.TimeDelta { return expression.TimeDelta{Days: 7 * n} }},
-			{"DAY", func(n int64) expression.TimeDelta { return expression.TimeDelta{Days: n} }},
-			{"HOUR", func(n int64) expression.TimeDelta { return expression.TimeDelta{Hours: n} }},
-			{"MINUTE", func(n int64) expression.TimeDelta { return expression.TimeDelta{Minutes: n} }},
-			{"SECOND", func(n int64) expression.TimeDelta { return expression.TimeDelta{Seconds: n} }},
-			{"MICROSECOND", func(n int64) expression.TimeDelta { return expression.TimeDelta{Microseconds: n} }},
-		})
-		n := int64(r.Range(-50, 50))
-		td := ud.mk(n)
-		fn, res := "DATE_ADD", td.Add(t1)
-		if r.Bool() {
-			fn, res = "DATE_SUB", td.Sub(t1)
+		if r.Chance(1, 8) { // around the lower end of the result range: from the first weeks of the year 0 backwards
+			f0 := fieldsOf(time.Date(0, 1, 1, 0, 0, 0, 0, time.UTC).AddDate(0, 0, r.Range(0, 45)).Add(time.Duration(r.Range(0, 86399)) * time.Second))
+			switch r.Intn(3) {
+			case 0:
+				dateaddCase("DATE_SUB", unitNamed("DAY"), int64(r.Range(0, 90)), f0)
+			case 1:
+				dateaddCase("DATE_ADD", unitNamed("HOUR"), int64(-r.Range(0, 2200)), f0)
+			default:
+				dateaddCase(hx.Pick(r, []string{"DATE_ADD", "DATE_SUB"}), hx.Pick(r, unitDeltas), int64(r.Range(-3, 3)), f0)
+			}
 		}
-		sqlx("dateadd", hx.List(fn, ud.unit, fmt.Sprint(n), f1.sexp()),
-			fmt.Sprintf("SELECT %s(CAST('%s' AS DATETIME(6)), INTERVAL %d %s)", fn, dtLit(t1), n, ud.unit), renderDT6(res))
+		// the text of the value itself, in one of the temporal types
+		dttextCase(hx.Pick(r, sqlKinds), f1)
 		// DATE_FORMAT
 		format := randFormat(r, "cDdefHhIikMmprSsTYyaWjb", r.Range(1, 4))
 		format = strings.NewReplacer("'", "", "\\", "").Replace(format)
@@ -1016,14 +1261,7 @@ func run(a hx.RunArgs) error {
 		default:
 			text = fmt.Sprintf("%04d%02d%02d %02d:%02d:%02d", g.y, g.mo, g.d, g.h, g.mi, g.s)
 		}
-		_, pt, isTime := parseObs(text, pf)
-		want := "NULL"
-		if isTime {
-			want = renderDT(pt)
-		}
-		if !isTime || (pt.Year() >= 1 && pt.Year() <= 9999) {
-			sqlx("strtodate", hx.List(hx.HexS(text), hx.HexS(pf)), fmt.Sprintf("SELECT STR_TO_DATE('%s','%s')", text, pf), want)
-		}
+		strtodateCase(text, pf)
 		// CAST of a text with an impossible day: must be NULL / an error / carry a warning
 		if r.Chance(1, 3) {
 			bad := fmt.Sprintf("%04d-%02d-%02d", f1.y, f1.mo, daysIn(f1.y, f1.mo)+1)
